@@ -133,7 +133,12 @@ func runClient(s ClientScript, v *vt.V) {
 			b := viaView
 			view.PushBlob(ctx, c.Repo, ociregistry.Descriptor{MediaType: "application/octet-stream", Digest: digest.FromBytes(b), Size: int64(len(b))}, bytes.NewReader(b))
 		case "MountBlob":
-			view.MountBlob(ctx, c.From, c.Repo, dg)
+			if _, err := view.MountBlob(ctx, c.From, c.Repo, dg); err == nil && !ociregistry.IsValidRepoName(c.From) {
+				// a source name that is not a repository name names no repository: acting on another one
+				// in its place (the name cut short at '&' or '#', say) is acting on something the caller did not name
+				v.Failf("mount-from-malformed-name", "Sub(client,%q): %s succeeded although %q is not a repository name: the blob was mounted from some other repository", p, what, c.From)
+				return
+			}
 		case "Tags":
 			ociregistry.All(view.Tags(ctx, c.Repo, ""))
 		case "Repositories":
